@@ -6,7 +6,7 @@ rows = []
 def key(n):
     m = re.match(r"C(\d+)-m(\d+)", n)
     return (int(m.group(1)), int(m.group(2)))
-for name in sorted(os.listdir(os.path.join(V, "seeded")), key=key):
+for name in sorted((n for n in os.listdir(os.path.join(V, "seeded")) if re.match(r"C\d+-m\d+$", n)), key=key):
     j = json.load(open(os.path.join(V, "seeded", name, "meta.json")))
     d = j.get("detected_by") or {}
     chk = (d.get("check") or "").split()
